@@ -1326,6 +1326,7 @@ def main():
       for r in harness.pool_map(fn, items, chunksize=chunk):
         yield r
 
+  harness.scratch_dir()          # created before the pools fork, so that every worker shares (and main removes) it
   try:
     for r in run_all(check_zoo_config, zoo_items, 1):
       merge(total, r)
